@@ -154,7 +154,8 @@ def check_printed(ctx, s, case, acc, names, sp, key=None):
             expected_pre.append(('\\in', n, ('..', str(decl[n][0]),
                                             str(decl[n][1]))))
     pre = conj[:len(expected_pre)]
-    if pre != expected_pre:
+    # the order in which hints and limits are displayed is not specified
+    if sorted(map(repr, pre)) != sorted(map(repr, expected_pre)):
         acc.ev()
         acc.violation('displayed_hints_or_limits_wrong', case, detail=dict(
             formula=s, got=[fm.show(t) for t in pre],
